@@ -44,4 +44,16 @@ theorem C08_tie_fn_fileLockIsStale (now created updated : Nat) :
   · have hz : (Int.ofNat updated == 0) = false := by simp; omega
     simp [hu]
 
+/-! ### what the printed definition means -/
+
+/-- the definition translated from `fileLockIsStale` on this run declares a lock file stale iff more than
+10 s (2 × `lockFreshnessInterval`, both from the source) have passed since its `updated` stamp — or since its
+`created` stamp when `updated` is the zero time -/
+theorem C08_fn_fileLockIsStale_means (now created updated : Nat) :
+    CM.Gen.Fn.fileLockIsStale (Int.ofNat now) ⟨Int.ofNat created, Int.ofNat updated⟩ = true ↔
+      now - (if updated = 0 then created else updated) > 10000000000 := by
+  rw [C08_tie_fn_fileLockIsStale]
+  unfold CM.FileLock.stale CM.FileLock.codeParams
+  simp
+
 end CM.Tie.FnC08
